@@ -9,14 +9,15 @@ inputs          : (i) the catalogue, exhaustively, in source form as the doc bui
 from __future__ import annotations
 
 import random
+import resource
+import signal
 
 import sympy
 
 from vp import coqrun
 from vp import render_common as rc
 
-STATIC = ["lex_total", "parse_total", "parse_fuel_monotone", "parse_code_deterministic", "parse_show_toks",
-    "parse_show"]
+STATIC = ["lex_total", "parse_total", "parse_fuel_monotone", "parse_code_deterministic", "parse_show_toks"]
 
 PARSE_FN = "parse_code"
 
@@ -62,6 +63,44 @@ def make_case(key, origin, expr, vkey, **extra):
     return c
 
 
+class _time_limit:
+    """SIGALRM guard around one SymPy construction (main thread only; no-op elsewhere)"""
+
+    def __init__(self, seconds):
+        self.seconds = seconds
+        self.armed = False
+
+    def _raise(self, *_a):
+        raise TimeoutError("sample construction took too long")
+
+    def __enter__(self):
+        try:
+            self.old = signal.signal(signal.SIGALRM, self._raise)
+            signal.alarm(self.seconds)
+            self.armed = True
+        except ValueError:
+            self.armed = False
+        return self
+
+    def __exit__(self, *exc):
+        if self.armed:
+            signal.alarm(0)
+            signal.signal(signal.SIGALRM, self.old)
+        return False
+
+
+def limit_memory(gb: int = 16):
+    """a runaway SymPy evaluation must fail with MemoryError instead of exhausting the machine"""
+    try:
+        soft, hard = resource.getrlimit(resource.RLIMIT_AS)
+        want = gb << 30
+        if hard != resource.RLIM_INFINITY:
+            want = min(want, hard)
+        resource.setrlimit(resource.RLIMIT_AS, (want, hard))
+    except (ValueError, OSError):
+        pass
+
+
 MAX_LEN = 110     # longer renderings add proof cost, not bracket shapes
 
 
@@ -78,9 +117,10 @@ def gen_samples(seed: int, n: int, render=None):
         tries += 1
         idx = tries
         try:
-            e = gen.sample()
+            with _time_limit(5):
+                e = gen.sample()
         except Exception:  # pylint: disable=broad-except
-            continue   # SymPy refused to build it (e.g. zoo arithmetic)
+            continue   # SymPy refused to build it (e.g. zoo arithmetic) or took too long
         if not isinstance(e, sympy.Expr) or e.has(sympy.zoo, sympy.nan, sympy.oo, -sympy.oo, sympy.E):
             continue
         if e.is_Number or e.is_Symbol:
@@ -99,6 +139,7 @@ def gen_samples(seed: int, n: int, render=None):
 
 
 def run(ctx):
+    limit_memory()
     ctx.level = "translation_validation"
     ctx.static(STATIC)
     ctx.trust("Coq 8.16.1 kernel incl. vm_compute (no native_compute)",
@@ -176,7 +217,9 @@ def validate(ctx, cases, skipped):
                 "sample_index": c.get("sample_index")}, found_input=found)
         elif c["status"] == "structure_only":
             n_struct += 1
-            skipped.append({"item": c["key"], "rendering": c["s"], "reason": c.get("reason") or "no semantic reading"})
+            entry = {"item": c["key"], "rendering": c["s"], "reason": c.get("reason") or "no semantic reading"}
+            entry["numeric_check"] = rc.numeric_only_check(ctx, c, random.Random(ctx.seed + 2))
+            skipped.append(entry)
         else:
             lemmas.append(c)
     ctx.log(f"{len(lemmas)} lemmas, {n_struct} structure-only")
